@@ -117,6 +117,20 @@ def generate(method, repo, maxorder=None):
     lines = ["use vstd::prelude::*;", "verus! {", "pub open spec fn D() -> int { %dint }" % D,
              "pub open spec fn pw(k: nat) -> int decreases k { if k == 0 { 1 } else { D() * pw((k - 1) as nat) } }"]
     lemmas = []     # (name, description)
+    # the tableau map above names constants by position; the same tableau is recovered from the statements of `solve`
+    # by symbolic execution (coef/symstep.py): the two must agree entry by entry
+    crosscheck = "not available"
+    try:
+        S2, A2, b2, c2, _bt, _yc = extract(method, repo)
+        bad = [("a_%d_%d" % ij, v, A2.get(ij, Fraction(0))) for ij, v in sorted(A.items()) if A2.get(ij, Fraction(0)) != v]
+        bad += [("a_%d_%d" % ij, Fraction(0), v) for ij, v in sorted(A2.items()) if ij[0] <= S and ij not in A and v != 0]
+        bad += [("b_%d" % i, v, b2.get(i, Fraction(0))) for i, v in sorted(b.items()) if b2.get(i, Fraction(0)) != v]
+        bad += [("c_%d" % i, v, c2.get(i, Fraction(0))) for i, v in sorted(c.items()) if c2.get(i, Fraction(0)) != v]
+        crosscheck = "agrees" if not bad else "differs"
+        lines.append("proof fn map_matches_code() ensures %s { assert(%s) by (compute_only); }" % (("1int == 1int", "1int == 1int") if not bad else ("false", "1int == 2int")))
+        lemmas.append(("map_matches_code", "the tableau used by solve() is the one the lemmas are stated for" + ("" if not bad else ": %s is %s in the map and %s in the code" % (bad[0][0], bad[0][1], bad[0][2]))))
+    except Exception as e:
+        crosscheck = "not available (%s)" % (str(e)[:80],)
     for (i, j), v in sorted(A.items()):
         if v != 0: lines.append("pub open spec fn a_%d_%d() -> int { %dint }" % (i, j, int(v * D)))
     for i, v in sorted(b.items()):
@@ -197,7 +211,7 @@ def generate(method, repo, maxorder=None):
             lemmas.append(("est_%s_nonzero" % nm, "estimator %s vanishes on every tree of order %d" % (nm, qq + 1)))
     lines.append("} // verus!")
     lines.append("fn main() {}")
-    return "\n".join(lines) + "\n", lemmas, {"stages": S, "order": P, "D_digits": len(str(D)), "consts": {k: str(v[0]) for k, v in consts.items()}}
+    return "\n".join(lines) + "\n", lemmas, {"stages": S, "order": P, "D_digits": len(str(D)), "map_vs_code": crosscheck, "consts": {k: str(v[0]) for k, v in consts.items()}}
 
 IMPLS = {"rk4": "RK4", "rk23": "RK23", "dopri5": "DOPRI5", "dop853": "DOP853"}
 DENSE_ORDER = {"rk4": 3, "rk23": 3, "dopri5": 4, "dop853": 7}     # q of property C07: the interpolant's error is O(h^(q+1))
